@@ -74,6 +74,22 @@ def make_custom(overrides, sink, value_eq=False, indirect=False):
     return type(name, (Listener,), body)()
 
 
+def tap(listener, errors):
+    """The listener itself, with its three callbacks reporting any exception that leaves them to `errors` (and raising
+    it on): Process.Solve catches what a callback raises, so the exception object would be lost otherwise."""
+    for name in ("BeforeMethodStart", "OnEndIteration", "OnMethodStop"):
+        orig = getattr(listener, name)
+
+        def wrapped(*a, _orig=orig, **k):
+            try:
+                return _orig(*a, **k)
+            except Exception as e:
+                errors.append(e)
+                raise
+        setattr(listener, name, wrapped)
+    return listener
+
+
 def make_shipped(spec, n, outdir):
     from iOpt.method import listener as L
     kind = spec["kind"]
@@ -257,8 +273,9 @@ def body(case):
         run.solver.AddListener(first)
         for ov in case["customs"]:
             run.solver.AddListener(make_custom(ov, sink, case.get("value_eq", False), case.get("indirect", False)))
+        swallowed = []
         for spec in case["shipped"]:
-            run.solver.AddListener(make_shipped(spec, n, outdir))
+            run.solver.AddListener(tap(make_shipped(spec, n, outdir), swallowed))
         run.solver.AddListener(last)
         returned = []
         nsolve = 0
@@ -274,6 +291,11 @@ def body(case):
                 else:
                     run.step(op)
             except Exception as e:
+                swallowed.append(e)
+            if swallowed:
+                # an exception left a shipped listener's callback: either it came out of the call, or Solve caught it
+                # (it catches whatever a callback raises and goes on)
+                e = swallowed[0]
                 who, where = exception_origin(e)
                 fragile = any(s.get("mode") in PAINTER_MODES_FRAGILE or s.get("calc") in PAINTER_MODES_FRAGILE
                               for s in case["shipped"])
